@@ -59,9 +59,12 @@ func attachCombos() []string {
 // attachSem bounds the number of rendez-vous that spin at the same time.
 var attachSem = make(chan struct{}, 3)
 
-// rendezvous: a two-party spin barrier with per-party lateness.
+// rendezvous: a two-party spin barrier with a hand-shake (the party that arrives second leaves
+// only when the first has answered its arrival, so both were on a processor within a cache
+// miss of each other) and per-party lateness.
 type rendezvous struct {
 	n      atomic.Int32
+	ack    atomic.Int32
 	missed atomic.Bool
 	late   [2]time.Duration // extra spin of party i after the barrier opened
 	left   [2]atomic.Int64  // when party i left the barrier (ns since t0)
@@ -78,13 +81,21 @@ func newRendezvous(lateParty int, late time.Duration) *rendezvous {
 // arrive blocks (spinning: the other party is expected within microseconds) until both
 // parties are here.  After 2 s it gives up: the round then counts as not exercised.
 func (rv *rendezvous) arrive(party int) {
-	rv.n.Add(1)
+	first := rv.n.Add(1) == 1
 	start := time.Now()
-	for i := 1; rv.n.Load() < 2; i++ {
+	for i := 1; ; i++ {
+		if first && rv.n.Load() >= 2 {
+			rv.ack.Store(1)
+			break
+		}
+		if !first && rv.ack.Load() == 1 {
+			break
+		}
 		if i&255 == 0 {
 			el := time.Since(start)
 			if el > 2*time.Second {
 				rv.missed.Store(true)
+				rv.ack.Store(1)
 				break
 			}
 			if el > 20*time.Millisecond {
@@ -111,7 +122,18 @@ type attachObs struct {
 	// Overlap: the two call windows (rendez-vous left .. call returned), each of which contains
 	// the party's first hub look-up, intersect
 	Overlap bool `json:"windows_overlap"`
+	// OnSchedule: the parties left the rendez-vous as planned (the late one late by what was
+	// planned, within onScheduleSlack); Attempts: source objects spent until that was so (a party
+	// that loses its processor at the rendez-vous spoils the round: the constructor race is then
+	// repeated over a new world, at most maxAttachAttempts times; only the last attempt is judged)
+	OnSchedule bool `json:"on_schedule"`
+	Attempts   int  `json:"attempts"`
 }
+
+const (
+	onScheduleSlack   = 1500 * time.Nanosecond
+	maxAttachAttempts = 5
+)
 
 func (rv *rendezvous) obs(combo string) *attachObs {
 	o := &attachObs{Combo: combo}
@@ -122,6 +144,12 @@ func (rv *rendezvous) obs(combo string) *attachObs {
 		o.SkewNs = -o.SkewNs
 	}
 	o.Overlap = o.Met && l0 <= r1 && l1 <= r0
+	planned := int64(rv.late[1] - rv.late[0]) // party 1 leaves this much after party 0
+	off := (l1 - l0) - planned
+	if off < 0 {
+		off = -off
+	}
+	o.OnSchedule = o.Met && off <= int64(onScheduleSlack)
 	return o
 }
 
@@ -149,12 +177,26 @@ type prestarted struct {
 }
 
 func prestart(sc *scenario) *prestarted {
-	p := &prestarted{}
-	p.w, p.err = newWorld(sc)
-	if p.err == nil {
+	for attempt := 1; ; attempt++ {
+		p := &prestarted{}
+		p.w, p.err = newWorld(sc)
+		if p.err != nil {
+			return p
+		}
 		p.inc = p.w.start(sc.Incs[0])
+		a := p.inc.attach
+		if a == nil {
+			return p
+		}
+		a.Attempts = attempt
+		if a.OnSchedule || attempt == maxAttachAttempts || p.inc.err != nil {
+			return p
+		}
+		// off schedule, and this source object is spent (its hub exists now): once more, with a new one
+		p.inc.freezeNow()
+		p.w.close()
+		time.Sleep(time.Millisecond) // pacing: lets the two threads end up on different CPUs
 	}
-	return p
 }
 
 // warm hashes the source value once (a look-up in a non-empty map keyed like the hub
